@@ -1,5 +1,5 @@
-//go:build verif
-// +build verif
+//go:build verif && c08pieces
+// +build verif,c08pieces
 
 package sarama
 
